@@ -23,13 +23,12 @@ package dirk
 //@ // given, a validator is pending before its activation epoch, active until its exit epoch (exiting or slashed
 //@ // once an exit epoch is set), exited until its withdrawable epoch, and done with once it has no balance
 //@ extern github.com/attestantio/go-eth2-client/api/v1.ValidatorToState
-//@   requires validator != nil && balance == nil
-//@   ensures (result == api.ValidatorStatePendingInitialized || result == api.ValidatorStatePendingQueued) <==> validator.ActivationEpoch > currentEpoch
-//@   ensures result == api.ValidatorStateActiveOngoing <==> (validator.ActivationEpoch <= currentEpoch && validator.ExitEpoch == farFutureEpoch)
-//@   ensures result == api.ValidatorStateActiveExiting <==> (validator.ActivationEpoch <= currentEpoch && validator.ExitEpoch != farFutureEpoch && validator.ExitEpoch > currentEpoch && !validator.Slashed)
-//@   ensures result == api.ValidatorStateActiveSlashed <==> (validator.ActivationEpoch <= currentEpoch && validator.ExitEpoch != farFutureEpoch && validator.ExitEpoch > currentEpoch && validator.Slashed)
-//@   ensures result == api.ValidatorStateWithdrawalDone <==> (validator.ActivationEpoch <= currentEpoch && validator.ExitEpoch != farFutureEpoch && validator.ExitEpoch <= currentEpoch && validator.WithdrawableEpoch <= currentEpoch && validator.EffectiveBalance == 0)
-//@   ensures result == api.ValidatorStatePendingInitialized || result == api.ValidatorStatePendingQueued || result == api.ValidatorStateActiveOngoing || result == api.ValidatorStateActiveExiting || result == api.ValidatorStateActiveSlashed || result == api.ValidatorStateExitedUnslashed || result == api.ValidatorStateExitedSlashed || result == api.ValidatorStateWithdrawalPossible || result == api.ValidatorStateWithdrawalDone
+//@   ensures validator != nil && balance == nil ==> ((result == api.ValidatorStatePendingInitialized || result == api.ValidatorStatePendingQueued) <==> validator.ActivationEpoch > currentEpoch)
+//@   ensures validator != nil && balance == nil ==> (result == api.ValidatorStateActiveOngoing <==> (validator.ActivationEpoch <= currentEpoch && validator.ExitEpoch == farFutureEpoch))
+//@   ensures validator != nil && balance == nil ==> (result == api.ValidatorStateActiveExiting <==> (validator.ActivationEpoch <= currentEpoch && validator.ExitEpoch != farFutureEpoch && validator.ExitEpoch > currentEpoch && !validator.Slashed))
+//@   ensures validator != nil && balance == nil ==> (result == api.ValidatorStateActiveSlashed <==> (validator.ActivationEpoch <= currentEpoch && validator.ExitEpoch != farFutureEpoch && validator.ExitEpoch > currentEpoch && validator.Slashed))
+//@   ensures validator != nil && balance == nil ==> (result == api.ValidatorStateWithdrawalDone <==> (validator.ActivationEpoch <= currentEpoch && validator.ExitEpoch != farFutureEpoch && validator.ExitEpoch <= currentEpoch && validator.WithdrawableEpoch <= currentEpoch && validator.EffectiveBalance == 0))
+//@   ensures validator != nil && balance == nil ==> (result == api.ValidatorStatePendingInitialized || result == api.ValidatorStatePendingQueued || result == api.ValidatorStateActiveOngoing || result == api.ValidatorStateActiveExiting || result == api.ValidatorStateActiveSlashed || result == api.ValidatorStateExitedUnslashed || result == api.ValidatorStateExitedSlashed || result == api.ValidatorStateWithdrawalPossible || result == api.ValidatorStateWithdrawalDone)
 //@
 //@ // what the validators manager knows of the public keys asked for (it answers only for those, which are the keys
 //@ // of the account map)
